@@ -148,10 +148,65 @@ def roundtrip_case(ctx, rng, idx, tmp):
                   lambda: dict(wit(), loaded=G.describe(), loaded_hgmd=G.hgmd))
         if fmt == "json":
             check_file_records(ctx, kind, path, before, wit)
+        if not d and rng.random() < 0.5:
+            second_generation(ctx, rng, kind, g, fmt, tmp, cfg, wit)
     if len(before.edges) >= 2 and (any(before.nodes.values()) or any(not any(n in K.nodes(k) for k in before.edges) for n in before.nodes)):
         ctx.distinct_add(("rt", kind, before.freeze()))
     if idx % 80 == 0:
         ctx.sample({"mode": "roundtrip", "kind": kind, "object": before.describe()})
+
+
+def second_generation(ctx, rng, kind, g, fmt, tmp, cfg, wit):
+    """The LOADED object is a hypergraph like any other (its hyperedge metadata now carries the reserved keys the text
+    format stores next to it): edit it through the public API - new weights, metadata, an insertion, a removal - and
+    round-trip it again.  What comes back must be the edited object, not what the first file said."""
+    from hypergraphx.readwrite import save_hypergraph, load_hypergraph
+    from ..observe import lib_args
+
+    S = observe(g)
+    ekeys = sorted(S.edges, key=lambda k: repr(sorted_key(k)))
+    n_edit = 0
+    for k in rng.sample(ekeys, min(len(ekeys), 3)):
+        if KEYS[kind].size(k) == 0:
+            continue
+        try:
+            if S.weighted:
+                g.set_weight(*lib_args(kind, k, rng), rng.choice([0.5, 3, 7, 2.5, 10.0]))
+                n_edit += 1
+            if rng.random() < 0.5:
+                g.set_attr_to_edge_metadata(*lib_args(kind, k, rng), "gen", 2)
+                n_edit += 1
+        except Exception as e:
+            ctx.note("second-generation-edit-refused:" + type(e).__name__)
+    try:
+        for _ in range(rng.randint(0, 3)):
+            op = history.gen_op(rng, cfg, observe(g))
+            if op[0] in ("copy", "clear"):
+                continue
+            try:
+                history.apply_op(g, kind, op, rng)
+                n_edit += 1
+            except Exception:
+                pass
+    except Exception as e:
+        ctx.note("second-generation-op-generation-failed:" + type(e).__name__)
+    if not n_edit:
+        return
+    G1 = observe(g)
+    path = os.path.join(tmp, f"gen2.{fmt}")
+    ctx.event("second-generation-roundtrip:" + fmt)
+    try:
+        save_hypergraph(g, path, binary=(fmt == "hgx"))
+        g2 = load_hypergraph(path)
+        P = []
+        G2 = observe(g2, P)
+    except Exception as e:
+        ctx.check("C06:roundtrip", False, f"C06:{kind}:{fmt}:second-generation:raised:{type(e).__name__}", lambda: wit(repr(e)))
+        return
+    A, B = norm_state(G2), norm_state(G1)
+    d = A.diff(B, with_hgmd=True) + P
+    ctx.check("C06:roundtrip", not d, f"C06:{kind}:{fmt}:second-generation:loaded-differs:" + ",".join(d),
+              lambda: dict(wit(), edited=G1.describe(), loaded=G2.describe()))
 
 
 def check_file_records(ctx, kind, path, before, wit):
